@@ -121,7 +121,7 @@ func init() {
 				hc.late = []string{"none", "arrive", "leave-live", "rebuy"}
 				hc.finish = []string{"all", "none", "first"}
 			}
-			return histSuites("c08/", cfgs, bound, func(h *hist) []Monitor { return []Monitor{newMonC08(h, 1)} })
+			return append(histSuites("c08/", cfgs, bound, func(h *hist) []Monitor { return []Monitor{newMonC08(h, 1)} }), c08SchedSuites(tier)...)
 		},
 	})
 	register(&Check{
